@@ -164,6 +164,10 @@ def has_big(j) -> bool:
     return False
 
 
+def rtn_involved(prog, inp) -> bool:
+    return 'RTN' in json.dumps(prog.get('funcs', {})) or 'RTN' in json.dumps(inp.get('ctx', []))
+
+
 def split_big(progs_by_pid, mm, skips):
     """A run whose inputs contain a wide (opaque) number and in which the machine stopped with a
     type/value error only says that the machine cannot compute on the token: it is a skip."""
@@ -173,6 +177,8 @@ def split_big(progs_by_pid, mm, skips):
         p = progs_by_pid[pid]
         if clause == 'missing-error' and merr in ('TypeError', 'ValueError') and has_big(p['inputs'][idx - 1]['args']):
             skips.append((pid, idx, 'skip', 'WideValue'))
+        elif clause.endswith('zero-sign') and rtn_involved(p, p['inputs'][idx - 1]):
+            skips.append((pid, idx, 'skip', 'RTNZeroSign'))     # the property leaves this sign open
         else:
             keep.append(m)
     return keep, skips
